@@ -275,3 +275,28 @@ def _(c):
     c.ensures("[(getattr(self.dimensions, n).num * d[1] == d[0] * getattr(self.dimensions, n).den) for n, d in zip(['m','g','s','K','C','cd','mol','rad'], dv)] == [True] * 8", "dimension-vector")
     c.ensures("near(self.magnitude, f)", "factor-is-prefix-times-unit-to-the-exponent")
     c.no_raise()
+
+
+# ---- a refused registration of a custom unit whose symbol is a published one (exactly, or as prefix + symbol) leaves the published tables
+#      as they were: the same expressions mean the same afterwards ---------------------------------------------------------------------------
+UEC = "units/unit_environment.py::UnitEnvironment"
+REFUSED_SYMBOLS = [("min", "m/min", [("", "m", 1, 1), ("", "min", -1, 1)]), ("Pa", "kPa*min2", [("k", "Pa", 1, 1), ("", "min", 2, 1)]), ("ms", "ms", [("m", "s", 1, 1)]), ("Mm", "Mm/s", [("M", "m", 1, 1), ("", "s", -1, 1)])]
+
+
+@contract(f"{BU}.__init__", ["C03", "C04"], name="BaseUnits.__init__[after-a-refused-registration-of-a-published-symbol]")
+def _(c):
+    c.bound = "custom units named like a published unit or like prefix + unit (alone, or as the second unit of a registration); then an expression using that symbol"
+    for sym, expr, terms in REFUSED_SYMBOLS:
+        for second in (False, True):
+            def pre(b, sym=sym, expr=expr, terms=terms, second=second):
+                units = {}
+                if second:
+                    units["xq7"] = b.dict(dict(magnitude=2.0, dimensions=b.list([1, 0, 0, 0, 0, 0, 0, 0])))
+                units[sym] = b.dict(dict(magnitude=b.real("mag"), dimensions=b.list([0, 0, 1, 0, 0, 0, 0, 0])))
+                e, exc = b.call_catching(b.cls(UEC), b.dict(units))
+                b.assume(exc is not None)
+                return dict(args=[b.obj(BU), expr], env=dict(f=U.factor(terms), dv=[(x.numerator, x.denominator) for x in U.dims(terms)]))
+            c.scenario(f"{sym} refused{' as second unit' if second else ''} then {expr}", pre)
+    c.ensures("[(getattr(self.dimensions, n).num * d[1] == d[0] * getattr(self.dimensions, n).den) for n, d in zip(['m','g','s','K','C','cd','mol','rad'], dv)] == [True] * 8", "dimension-vector-from-the-published-tables")
+    c.ensures("near(self.magnitude, f)", "factor-from-the-published-tables")
+    c.no_raise()
